@@ -83,6 +83,10 @@ def run(ctx):
         import docwalk
         ctx.guard(docwalk.cursor_advance, ctx, cfg, fs, 'C.cursor', r'render_console$|Doc::first_line$')
         ctx.guard(docwalk.payload_writers, ctx, cfg, fs, 'C.cursor')
+        import c08 as c08o
+        # --help first runs the placement check of the level: it must not refuse shapes that are fine (a positional followed by a command
+        # with named items, or by an adjacent group that starts with a flag) - shared with C08
+        ctx.guard(c08o.own_level_invariant, ctx, cfg, fs)
         import c13
         # the name / metavariable column and the help text stay two separate words (shared with C13)
         ctx.guard(c13.term_gap, ctx, cfg, fs, 'C.cursor')
